@@ -33,6 +33,8 @@ Cmds == [
     none2   |-> C("ann", "p4", TRUE, {Def("a12", {<<"rid", "r2">>})}),
     two     |-> C("ann", "p5", TRUE, {Def("a11", {}), Def("a12", {<<"as", 65002>>})}),
     third   |-> C("ann", "p6", TRUE, {Def("a110", {<<"rid", "r2">>})}),
+    \* the wildcard address with a term: every neighbour of AS 65002, and only those
+    staras  |-> C("ann", "p11", TRUE, {Def("*", {<<"as", 65002>>})}),
     wdall   |-> C("wd", "p1", TRUE, {Def("*", {})}),
     wdone   |-> C("wd", "p2", TRUE, {Def("a11", {})}),
     bogus   |-> C("unknown", "none", FALSE, {}),
